@@ -591,6 +591,11 @@ class CallMixin(object):
 
     def bi_type(self, args, kw, st, n):
         for s, a in self.split(st, args[0]):
+            hook = self.spec.hints.get('type_of')
+            tn = hook(self, a) if hook is not None else None
+            if tn is not None:
+                yield s, ConstV(TypeName(tn))
+                continue
             for nm in ('bool', 'int', 'bytes', 'bytearray', 'str', 'tuple', 'list', 'dict', 'slice'):
                 if self.TYPE_TAGS[nm](a):
                     yield s, ConstV(TypeName(nm))
@@ -861,6 +866,12 @@ class CallMixin(object):
     def value_method(self, recv, name, args, kw, st, n):
         line = getattr(n, 'lineno', None)
         recv0 = recv
+        hook = self.spec.hints.get('value_method')
+        if hook is not None:
+            r = hook(self, recv, name, args, kw, st, n)
+            if r is not None:
+                yield from r
+                return
         if isinstance(recv, RefV) and recv.kind == 'rec':
             yield from self.rec_method(recv, name, args, kw, st, n)
             return
@@ -1049,7 +1060,15 @@ class CallMixin(object):
             j = fresh('ej')
             if enc in ('iso-8859-1', 'latin-1', 'ascii'):
                 lim = 256 if enc != 'ascii' else 128
-                ok = z3.ForAll([j], z3.Implies(z3.And(0 <= j, j < z3.Length(recv.t)), z3.And(recv.t[j] >= 0, recv.t[j] < lim)))
+                def all_below(t):
+                    # exact and compositional: every element of a ++ b is below lim iff that holds of a and of b
+                    if z3.is_app(t) and t.decl().kind() == z3.Z3_OP_SEQ_CONCAT:
+                        return z3.And(*[all_below(c) for c in t.children()])
+                    if z3.is_app(t) and t.decl().kind() == z3.Z3_OP_SEQ_UNIT:
+                        return z3.And(t.arg(0) >= 0, t.arg(0) < lim)
+                    jj = fresh('ej')
+                    return z3.ForAll([jj], z3.Implies(z3.And(0 <= jj, jj < z3.Length(t)), z3.And(t[jj] >= 0, t[jj] < lim)))
+                ok = all_below(recv.t)
                 for s, t in self.fork(st, ok):
                     if t:
                         yield s, SeqV(recv.t, 'bytes')
